@@ -30,9 +30,16 @@ def _more(check, na):
           TB + " Panic-while-panicking aborts.", "guard-after-increment dataflow, divergence summaries, const evaluation by rustc", "DESIGN.md 4/C16")
 
 
+def _more2(check, na):
+    check("C14", "other",
+          "Where the answer comes from, decided on the type-resolved call graph: every comparison/hash/format method on a handle or public header-slice type reaches the same trait method on the payload, never on the pointer, never on a part of the value, never another method; the single pointer-identity shortcut has the licensed shape; Borrow/AsRef return the Deref target; eq, ordering and hash of each payload struct read the same leaf fields at the same instantiation. Two genuine defects found by these rules were repaired in /repo (fix: commits, see known_findings.json). Concrete results on values are not decided.",
+          TB + " Parametricity of one-call delegation.", "call-graph delegation analysis + comparison-footprint agreement", "DESIGN.md 4/C14, 6")
+
+
 _reg0 = register
 
 
 def register(check, na):  # noqa: F811
     _reg0(check, na)
     _more(check, na)
+    _more2(check, na)
